@@ -289,14 +289,15 @@ class Model:
                 proto = sel is None or (sel is not False and n.name in sel)
                 first = min([n.lineno] + [d.lineno for d in n.decorator_list])
                 text = '\n'.join(lines[first - 1:n.end_lineno])
-                key = hashlib.sha1(f'{int(proto)}|{n.col_offset}|{hkey}|{text}'.encode()).hexdigest()
-                hit = cache.get(key, n.lineno)
-                if hit is not None:
-                    return hit
                 cls = self.cls[-1] if (self.cls and self.depth == 0) else None
                 if self.depth == 0:
                     self.vocab = locs.get(f'{m}::{cls + "." if cls else ""}{n.name}')
                 vocab = self.vocab
+                vkey = ','.join(sorted(vocab)) if vocab is not None else '-'
+                key = hashlib.sha1(f'{int(proto)}|{n.col_offset}|{hkey}|{vkey}|{text}'.encode()).hexdigest()
+                hit = cache.get(key, n.lineno)
+                if hit is not None:
+                    return hit
                 self.depth += 1
                 saved, self.cls = self.cls, []
                 self.generic_visit(n)
